@@ -568,7 +568,25 @@ def r00_helper_semantics(ctx):
             got_c = got
         n += 1
         body = [unparse(s_) for s_ in f.node.body if not (isinstance(s_, ast.Expr) and isinstance(s_.value, ast.Constant))]
-        ctx.check(got_c in wants, R, f.node, f, what, '; '.join(body)[:200],
+        same = got_c in wants
+        if not same and not prefix:
+            # the same function written with other branches (early return / conditional expression / a local / a property of the
+            # class spelled out): compare the sets of (conditions -> returned expression) paths
+            import textwrap
+            from ..symret import canon_paths
+            props = {}
+            if f.owner_class is not None:
+                for pn, pf in f.owner_class.methods.items():
+                    if any(unparse(d_) == 'property' for d_ in pf.node.decorator_list):
+                        pb = [s_ for s_ in pf.node.body if not (isinstance(s_, ast.Expr) and isinstance(s_.value, ast.Constant))]
+                        if len(pb) == 1 and isinstance(pb[0], ast.Return) and pb[0].value is not None and pf.params and pn != f.name:
+                            props[pn] = (pb[0].value, pf.params[0])
+            gp = canon_paths(f.node, props)
+            for r in ([refs] if isinstance(refs, str) else refs):
+                rp = canon_paths(ast.parse(textwrap.dedent(r)).body[0], props)
+                if gp is not None and rp is not None and gp == rp:
+                    same = True
+        ctx.check(same, R, f.node, f, what, '; '.join(body)[:200],
                   '%s is `%s`, expected (up to renaming) `%s`' % (qn.split('.')[-1], '; '.join(body)[:200], '; '.join(
                       l.strip() for l in ([refs] if isinstance(refs, str) else refs)[0].strip().splitlines()[1:])))
 
